@@ -89,6 +89,10 @@ fn park_model(b: &Blocker, timeout: Option<Duration>) -> Result<(), ParkError> {
         }
         assert!(np::DEPTH == 0, "model: only the root waiter blocks");
         // the timer may win the race against a later post
+        if CANCEL_MODE && kani::any() {
+            TIMED_OUT = true;
+            return Err(ParkError::Canceled);
+        }
         if timeout.is_some() && kani::any() {
             TIMED_OUT = true;
             return Err(ParkError::Timeout);
@@ -99,8 +103,19 @@ fn park_model(b: &Blocker, timeout: Option<Duration>) -> Result<(), ParkError> {
             run_post();
         }
         if *tok != 0 {
+            if CANCEL_MODE && kani::any() {
+                // the cancel arrives together with the wake-up: Park reports Canceled although
+                // the waiter was unparked
+                *tok = 0;
+                TIMED_OUT = true;
+                return Err(ParkError::Canceled);
+            }
             *tok = 0;
             return Ok(());
+        }
+        if CANCEL_MODE {
+            TIMED_OUT = true;
+            return Err(ParkError::Canceled);
         }
         if timeout.is_some() {
             TIMED_OUT = true;
@@ -113,6 +128,8 @@ fn park_model(b: &Blocker, timeout: Option<Duration>) -> Result<(), ParkError> {
     }
 }
 static mut INIT: isize = 0;
+static mut CANCEL_MODE: bool = false; // the waiter is cancelled: its park gives up with Canceled
+static mut S_TIMED: bool = false;
 
 macro_rules! sem_harness {
     ($(#[$m:meta])* fn $name:ident() $body:block) => {
@@ -147,6 +164,7 @@ fn waiter_vs_posts(depth: usize, posts: usize, with_w2: bool) {
     let s: &'static Semphore = Box::leak(Box::new(Semphore::new(init)));
     let timed: bool = kani::any();
     unsafe {
+        S_TIMED = timed;
         S = s;
         MAXD = depth;
         INIT = init as isize;
@@ -160,13 +178,19 @@ fn waiter_vs_posts(depth: usize, posts: usize, with_w2: bool) {
         s.wait();
         true
     };
+    after_wait(ok, timed);
+}
+/// everything that is checked once the waiter's call is over (it returned, or - cancel mode - it
+/// left through the cancel panic)
+fn after_wait(ok: bool, timed: bool) {
+    let s = unsafe { &*S };
     unsafe {
         if ok {
             SUCCESSES += 1;
         }
         assert!(SUCCESSES <= INIT + POSTS, "C10: more successful waits than initial value + posts (permit duplicated)");
         if !ok {
-            assert!(timed && TIMED_OUT, "C10: wait gave up without a time-out");
+            assert!((timed || CANCEL_MODE) && TIMED_OUT, "C10: wait gave up without a time-out or cancel");
         }
         kani::cover!(!ok && np::PREEMPTS > 0, "time-out raced with a post");
         kani::cover!(ok && ROOT_PARKED, "waiter parked and was woken by a post");
@@ -193,3 +217,22 @@ fn waiter_vs_posts(depth: usize, posts: usize, with_w2: bool) {
 sem_harness! { #[kani::unwind(3)] fn c10_sem_waiter_vs_post_d1() { waiter_vs_posts(1, 1, false) } }
 sem_harness! { #[kani::unwind(4)] fn c10_sem_waiter_vs_2posts_w2_d1() { waiter_vs_posts(1, 2, true) } }
 sem_harness! { #[kani::unwind(4)] fn c10_sem_waiter_vs_2posts_d2() { waiter_vs_posts(2, 2, false) } }
+
+// ---- C09 (semaphore): a waiter cancelled before / after / together with the post -----------------
+fn cancel_panic_final() -> ! {
+    unsafe {
+        assert!(CANCEL_MODE && TIMED_OUT, "C09: cancel panic in a waiter that was never cancelled");
+        after_wait(false, S_TIMED);
+        kani::cover!(np::PREEMPTS > 0, "the post landed inside the cancelled waiter's give-up hand-shake");
+    }
+    kani::assume(false);
+    unreachable!()
+}
+sem_harness! {
+    #[kani::unwind(3)]
+    #[kani::stub(crate::cancel::trigger_cancel_panic, cancel_panic_final)]
+    fn c09_sem_cancelled_waiter_vs_post_d1() {
+        unsafe { CANCEL_MODE = true };
+        waiter_vs_posts(1, 1, false)
+    }
+}
